@@ -20,6 +20,19 @@ CLAIMS = {
          "R13b: only Runner may swap variables; R13c: compile_closure restores/removes closure variables before every exit.", "§4 C13"),
 }
 
+CLAIMS.update({
+ "C15": ("who-may-call over resolved `dyn Target` call sites + must-pass-through of the compile-time read-only guards",
+         "R15a: only assignment::Target::insert and del::del reach mutating `dyn Target` methods; R15b: every Target in a compiled assignment "
+         "passed a `?`-checked verify_mutable that rejects read-only external paths; R15c: Del::compile builds DelFn only past the read-only test. "
+         "Does not decide the path algebra of is_read_only_path.", "§4 C15"),
+ "C16": ("must-pass-through + def-use flow in the compiler's recording sites, who-may-construct Query",
+         "R16a-d: every compiled external Query and assignment target is pushed to the vectors ProgramInfo is built from, and every path given "
+         "to a `dyn Target` method derives from such a recorded source. Does not decide ancestor/descendant coverage semantics.", "§4 C16"),
+ "C17": ("error-discipline classification of the consumers of every `dyn Target` call result + variant dataflow of the root check",
+         "R17a: results of all `dyn Target` calls are consumed by .ok()-chains / drop / match, never unwrap/expect/`?`; R17b: Runtime::resolve "
+         "turns a failed or empty root read into Terminate::Error before the program starts.", "§4 C17"),
+})
+
 NA = {}
 
 def main():
